@@ -1,10 +1,10 @@
 /-
   C22 — deep embedding of the scalar expression language recorded by the T1 tracer, its evaluation and its
-  FORMAL DERIVATIVE (forward mode: value and derivative propagated together).
+  FORMAL DERIVATIVE (forward mode).
 
   `E` is the DAG node language (sharing is kept by the generator: every node is a named closed constant).
   `eval ρ e`   : value in a field `K`, function symbols through `Fns K` (uninterpreted).
-  `evalD ρ δ e`: the pair (value, derivative) where `δ i` is the derivative of input `i` — the usual rules
+  `evalD ρ δ e`: the derivative of `e` along `δ` (`δ i` is the derivative of input `i`) — the usual rules
                  for + − × ÷ and integer powers, and for the function symbols the laws
                      d sqrt u   = du / (2 sqrt u)
                      d cbrt u   = du / (3 cbrt u · cbrt u)
@@ -48,24 +48,24 @@ def eval (c c3 : K) (fn : Fns K) (ρ : Nat → K) : E → K
   | .cbrt a => fn.cbrt (eval c c3 fn ρ a)
   | .abs a => fn.abs (eval c c3 fn ρ a)
 
-/-- formal derivative along the direction `δ` of the inputs (second component; the first is the value) -/
-def evalD (c c3 : K) (fn : Fns K) (ρ δ : Nat → K) : E → K × K
-  | .var i => (ρ i, δ i)
-  | .rat n d => ((n : K) / (d : K), 0)
-  | .c2 => (c, 0) | .c3 => (c3, 0) | .c6 => (c * c3, 0)
-  | .add a b => let x := evalD c c3 fn ρ δ a; let y := evalD c c3 fn ρ δ b; (x.1 + y.1, x.2 + y.2)
-  | .sub a b => let x := evalD c c3 fn ρ δ a; let y := evalD c c3 fn ρ δ b; (x.1 - y.1, x.2 - y.2)
-  | .mul a b => let x := evalD c c3 fn ρ δ a; let y := evalD c c3 fn ρ δ b; (x.1 * y.1, x.2 * y.1 + x.1 * y.2)
-  | .div a b => let x := evalD c c3 fn ρ δ a; let y := evalD c c3 fn ρ δ b;
-                (x.1 / y.1, (x.2 * y.1 - x.1 * y.2) / (y.1 * y.1))
-  | .neg a => let x := evalD c c3 fn ρ δ a; (-x.1, -x.2)
-  | .npow a k => let x := evalD c c3 fn ρ δ a; (x.1 ^ k, (k : K) * x.1 ^ (k - 1) * x.2)
-  | .powq a n d => let x := evalD c c3 fn ρ δ a; let q : K := (n : K) / (d : K);
-                (fn.pow x.1 q, q * fn.pow x.1 q / x.1 * x.2)
-  | .pow a b => (fn.pow (evalD c c3 fn ρ δ a).1 (evalD c c3 fn ρ δ b).1, 0)
-  | .sqrt a => let x := evalD c c3 fn ρ δ a; (fn.sqrt x.1, x.2 / (2 * fn.sqrt x.1))
-  | .cbrt a => let x := evalD c c3 fn ρ δ a; (fn.cbrt x.1, x.2 / (3 * (fn.cbrt x.1 * fn.cbrt x.1)))
-  | .abs a => (fn.abs (evalD c c3 fn ρ δ a).1, 0)
+/-- formal derivative along the direction `δ` of the inputs -/
+def evalD (c c3 : K) (fn : Fns K) (ρ δ : Nat → K) : E → K
+  | .var i => δ i
+  | .rat _ _ => 0
+  | .c2 => 0 | .c3 => 0 | .c6 => 0
+  | .add a b => evalD c c3 fn ρ δ a + evalD c c3 fn ρ δ b
+  | .sub a b => evalD c c3 fn ρ δ a - evalD c c3 fn ρ δ b
+  | .mul a b => evalD c c3 fn ρ δ a * eval c c3 fn ρ b + eval c c3 fn ρ a * evalD c c3 fn ρ δ b
+  | .div a b => (evalD c c3 fn ρ δ a * eval c c3 fn ρ b - eval c c3 fn ρ a * evalD c c3 fn ρ δ b)
+                  / (eval c c3 fn ρ b * eval c c3 fn ρ b)
+  | .neg a => -evalD c c3 fn ρ δ a
+  | .npow a k => (k : K) * eval c c3 fn ρ a ^ (k - 1) * evalD c c3 fn ρ δ a
+  | .powq a n d => ((n : K) / (d : K)) * fn.pow (eval c c3 fn ρ a) ((n : K) / (d : K)) / eval c c3 fn ρ a
+                  * evalD c c3 fn ρ δ a
+  | .pow _ _ => 0
+  | .sqrt a => evalD c c3 fn ρ δ a / (2 * fn.sqrt (eval c c3 fn ρ a))
+  | .cbrt a => evalD c c3 fn ρ δ a / (3 * (fn.cbrt (eval c c3 fn ρ a) * fn.cbrt (eval c c3 fn ρ a)))
+  | .abs _ => 0
 
 /-- expressions on which `evalD` is the formal derivative (no `abs`, no `pow` with a symbolic exponent) -/
 def diffable : E → Bool
@@ -73,11 +73,6 @@ def diffable : E → Bool
   | .add a b | .sub a b | .mul a b | .div a b => diffable a && diffable b
   | .neg a | .npow a _ | .powq a _ _ | .sqrt a | .cbrt a => diffable a
   | .pow _ _ | .abs _ => false
-
-/-- the first component of `evalD` is `eval` -/
-theorem evalD_fst (c c3 : K) (fn : Fns K) (ρ δ : Nat → K) (e : E) :
-    (evalD c c3 fn ρ δ e).1 = eval c c3 fn ρ e := by
-  induction e <;> simp_all [evalD, eval]
 
 /-- environments: the list of input values, and the unit direction along input `j` -/
 def env (l : List K) : Nat → K := fun i => l.getD i 0
